@@ -753,11 +753,217 @@ fn put_ks(o: &mut Out, ks: &[u32]) {
     }
 }
 
+
+// ---------------------------------------------------------------------------------------------
+// `bb` family: arbitrary call sequences against a real builder
+
+#[derive(Clone, Copy, Debug)]
+enum BOp {
+    Begin,
+    V,
+    T(u32, u32, u32),
+    End,
+    Abort,
+}
+
+/// `FillVertex` / `StrokeVertex` cannot be constructed outside lyon, so a real tessellation
+/// (circle) serves as the supply of vertices: every vertex it hands in triggers the scripted
+/// calls up to and including the next `V` on the real builder under test; the supplier's own
+/// begin / triangle / end calls are ignored and it always gets `Ok` back.
+struct Scramble<B> {
+    inner: B,
+    ops: Vec<BOp>,
+    pos: usize,
+    log: Log,
+    dummy: u32,
+}
+
+impl<B: GeometryBuilder> Scramble<B> {
+    fn exec_plain(&mut self, op: BOp) {
+        match op {
+            BOp::Begin => {
+                self.log.borrow_mut().push(Call::Begin);
+                self.inner.begin_geometry()
+            }
+            BOp::End => {
+                self.log.borrow_mut().push(Call::End);
+                self.inner.end_geometry()
+            }
+            BOp::Abort => {
+                self.log.borrow_mut().push(Call::Abort);
+                self.inner.abort_geometry()
+            }
+            BOp::T(a, b, c) => {
+                self.log.borrow_mut().push(Call::T(a, b, c));
+                self.inner.add_triangle(VertexId(a), VertexId(b), VertexId(c))
+            }
+            BOp::V => {}
+        }
+    }
+    /// run scripted calls up to the next `V`; true if a `V` is due
+    fn until_v(&mut self) -> bool {
+        while self.pos < self.ops.len() {
+            let op = self.ops[self.pos];
+            self.pos += 1;
+            if let BOp::V = op {
+                return true;
+            }
+            self.exec_plain(op);
+        }
+        false
+    }
+    fn next_dummy(&mut self) -> Result<VertexId, GeometryBuilderError> {
+        self.dummy += 1;
+        Ok(VertexId(self.dummy - 1))
+    }
+}
+impl<B: GeometryBuilder> GeometryBuilder for Scramble<B> {
+    fn add_triangle(&mut self, _: VertexId, _: VertexId, _: VertexId) {}
+}
+impl<B: FillGeometryBuilder> FillGeometryBuilder for Scramble<B> {
+    fn add_fill_vertex(&mut self, v: FillVertex) -> Result<VertexId, GeometryBuilderError> {
+        if self.until_v() {
+            let r = self.inner.add_fill_vertex(v);
+            self.log.borrow_mut().push(Call::V(r.map(|x| x.0)));
+        }
+        self.next_dummy()
+    }
+}
+impl<B: StrokeGeometryBuilder> StrokeGeometryBuilder for Scramble<B> {
+    fn add_stroke_vertex(&mut self, v: StrokeVertex) -> Result<VertexId, GeometryBuilderError> {
+        if self.until_v() {
+            let r = self.inner.add_stroke_vertex(v);
+            self.log.borrow_mut().push(Call::V(r.map(|x| x.0)));
+        }
+        self.next_dummy()
+    }
+}
+
+fn supply<B: FillGeometryBuilder + StrokeGeometryBuilder>(inner: B, ops: &[BOp], log: &Log, stroke: bool) {
+    let mut s = Scramble { inner, ops: ops.to_vec(), pos: 0, log: log.clone(), dummy: 0 };
+    let nv = ops.iter().filter(|o| matches!(o, BOp::V)).count();
+    // each circle supplies at least 32 vertices
+    for _ in 0..(nv / 32 + 1) {
+        if stroke {
+            let _ = StrokeTessellator::new().tessellate_circle(point(0.0, 0.0), 10.0, &StrokeOptions::tolerance(0.01), &mut s);
+        } else {
+            let _ = FillTessellator::new().tessellate_circle(point(0.0, 0.0), 10.0, &FillOptions::tolerance(0.05), &mut s);
+        }
+    }
+    let _ = s.until_v();
+}
+
+fn bb_typed<I: Idx>(spec: &SinkSpec, ops: &[BOp], stroke: bool) -> RunRec {
+    let mut buffers: VertexBuffers<u32, I> = VertexBuffers::with_capacity(16, 16);
+    buffers.vertices = (0..spec.init_nv).map(|i| INIT_STAMP.wrapping_add(i as u32)).collect();
+    buffers.indices = spec.init_idx.iter().map(|&i| I::from(VertexId(i))).collect();
+    let snap = |b: &VertexBuffers<u32, I>| (b.vertices.clone(), b.indices.iter().map(|i| i.val()).collect::<Vec<u64>>());
+    let before = snap(&buffers);
+    let log: Log = Rc::new(RefCell::new(Vec::new()));
+    let res = vh::guarded(|| {
+        let bb = BuffersBuilder::new(&mut buffers, Stamp(0)).with_vertex_offset(spec.off);
+        if spec.invert {
+            supply(bb.with_inverted_winding(), ops, &log, stroke)
+        } else {
+            supply(bb, ops, &log, stroke)
+        }
+    });
+    let after = snap(&buffers);
+    let trace = log.borrow().clone();
+    RunRec { panicked: res.is_none(), result: res.map(|_| Ok(())), trace, before, after, has_buffers: true }
+}
+
+fn bb_run(spec: &SinkSpec, ops: &[BOp], stroke: bool) -> RunRec {
+    match spec.ty {
+        "u8" => bb_typed::<W<u8>>(spec, ops, stroke),
+        "i8" => bb_typed::<W<i8>>(spec, ops, stroke),
+        "u16" => bb_typed::<u16>(spec, ops, stroke),
+        "i16" => bb_typed::<W<i16>>(spec, ops, stroke),
+        "u32" => bb_typed::<u32>(spec, ops, stroke),
+        "i32" => bb_typed::<i32>(spec, ops, stroke),
+        "u64" => bb_typed::<W<u64>>(spec, ops, stroke),
+        "i64" => bb_typed::<W<i64>>(spec, ops, stroke),
+        "usize" => bb_typed::<usize>(spec, ops, stroke),
+        "isize" => bb_typed::<W<isize>>(spec, ops, stroke),
+        "small3" => bb_typed::<Small<3>>(spec, ops, stroke),
+        "small6" => bb_typed::<Small<6>>(spec, ops, stroke),
+        "small17" => bb_typed::<Small<17>>(spec, ops, stroke),
+        _ => {
+            let log: Log = Rc::new(RefCell::new(Vec::new()));
+            let res = vh::guarded(|| supply(NoOutput::new(), ops, &log, stroke));
+            let trace = log.borrow().clone();
+            RunRec { panicked: res.is_none(), result: res.map(|_| Ok(())), trace, before: (vec![], vec![]), after: (vec![], vec![]), has_buffers: false }
+        }
+    }
+}
+
+
+/// Replays the recorded calls on a shadow copy of the initial buffers following the *property*
+/// (not the implementation): abort must restore the contents at the last begin; vertices append;
+/// ids are positions; an error is returned exactly when the count exceeds MAX.
+fn bb_oracle(orc: &mut Oracle, spec: &SinkSpec, r: &RunRec) {
+    let max = type_max(spec.ty);
+    let mut nv = r.before.0.len() as u64;
+    let mut ni = r.before.1.len() as u64;
+    let mut mark = (nv, ni);
+    for c in &r.trace {
+        match c {
+            Call::Begin => mark = (nv, ni),
+            Call::V(res) => {
+                nv += 1;
+                let want = if nv > max { Err(GeometryBuilderError::TooManyVertices) } else { Ok((nv - 1) as u32) };
+                orc.check(*res == want, "buffers_builder/too-many-vertices", "generic", || format!("ty={} count={} max={} returned {:?}", spec.ty, nv, max, res));
+            }
+            Call::T(..) => ni += 3,
+            Call::Abort => {
+                nv = mark.0;
+                ni = mark.1;
+            }
+            _ => {}
+        }
+    }
+    orc.check(r.after.0.len() as u64 == nv && r.after.1.len() as u64 == ni, "buffers_builder/lengths", "generic", || {
+        format!("ty={} expected {} vertices {} indices, got {} {}", spec.ty, nv, ni, r.after.0.len(), r.after.1.len())
+    });
+    // prior contents are never altered unless an abort cut into them (only possible by misuse: abort without begin after truncation)
+    let keep_v = (r.before.0.len()).min(r.after.0.len());
+    let keep_i = (r.before.1.len()).min(r.after.1.len());
+    orc.check(r.after.0[..keep_v] == r.before.0[..keep_v] && r.after.1[..keep_i] == r.before.1[..keep_i], "buffers_builder/old-untouched", "generic", || format!("ty={}", spec.ty));
+}
+
+fn gen_ops(rng: &mut Rng, id_span: u32) -> (Vec<BOp>, &'static str) {
+    let misuse = rng.chance(1, 3);
+    let mut ops = Vec::new();
+    let mut nv = 0;
+    let cycles = rng.range(1, 4);
+    for _ in 0..cycles {
+        if !misuse || rng.chance(4, 5) {
+            ops.push(BOp::Begin);
+        }
+        for _ in 0..rng.range(0, 9) {
+            if rng.chance(3, 5) && nv < 60 {
+                ops.push(BOp::V);
+                nv += 1;
+            } else {
+                let mut id = |rng: &mut Rng| rng.below(id_span as u64 + 3) as u32;
+                ops.push(BOp::T(id(rng), id(rng), id(rng)));
+            }
+            if misuse && rng.chance(1, 10) {
+                ops.push(*rng.pick(&[BOp::Begin, BOp::End, BOp::Abort]));
+            }
+        }
+        if !misuse || rng.chance(4, 5) {
+            ops.push(if rng.chance(1, 2) { BOp::End } else { BOp::Abort });
+        }
+    }
+    (ops, if misuse { "misuse" } else { "cycles" })
+}
+
 fn main() {
     let mut ctx = Ctx::from_args("C04");
 
     // ---- fill ---------------------------------------------------------------------------------
-    for _ in 0..ctx.n(260, 5000) {
+    for _ in 0..ctx.n(400, 6000) {
         ctx.case("fill", |rng| {
             let (cmds, pkind) = gen_cmds(rng);
             let n_entries = if rng.chance(1, 12) { 6 } else { 5 };
@@ -809,7 +1015,7 @@ fn main() {
     }
 
     // ---- stroke -------------------------------------------------------------------------------
-    for _ in 0..ctx.n(260, 5000) {
+    for _ in 0..ctx.n(500, 8000) {
         ctx.case("stroke", |rng| {
             let (cmds, pkind) = gen_cmds(rng);
             let entry = *rng.pick(&STROKE_ENTRIES);
@@ -902,6 +1108,55 @@ fn main() {
             (args, tag, move || {
                 let job = Job::Fill(&run);
                 enumerate(Kind::Shape, site, &spec, &ks, &job)
+            })
+        });
+    }
+
+    // ---- bb: direct call sequences against the real builders -----------------------------------
+    for _ in 0..ctx.n(400, 8000) {
+        ctx.case("bb", |rng| {
+            let mut spec = SinkSpec::gen(rng, true);
+            let max = type_max(spec.ty);
+            if spec.ty != "noout" && max <= 70_000 && rng.chance(1, 2) {
+                spec.init_nv = max - rng.below(7.min(max + 1));
+            }
+            let stroke = rng.chance(1, 2);
+            let span = (spec.init_nv as u32).saturating_add(14).min(70_000);
+            let id_span = if rng.chance(1, 6) { 300 } else { span };
+            let (ops, okind) = gen_ops(rng, id_span);
+            let mut args = Out::new();
+            spec.put(&mut args);
+            args.t("ops").u(ops.len() as u64);
+            for op in &ops {
+                match op {
+                    BOp::Begin => args.t("b"),
+                    BOp::V => args.t("v"),
+                    BOp::T(a, b, c) => args.t("t").u(*a as u64).u(*b as u64).u(*c as u64),
+                    BOp::End => args.t("e"),
+                    BOp::Abort => args.t("a"),
+                };
+            }
+            let tag = format!("bb {} {} {}{}", okind, spec.tag().replace(" inject", "").replace(" overflow", ""), if stroke { "stroke-vertex" } else { "fill-vertex" }, if ops.is_empty() { " trivial" } else { "" });
+            (args, tag, move || {
+                let r = bb_run(&spec, &ops, stroke);
+                let mut o = Out::new();
+                let mut orc = Oracle::new();
+                o.t("max").u(type_max(spec.ty));
+                orc.check(!r.panicked, "buffers_builder/no-panic", "generic", || format!("ty={} ops={:?}", spec.ty, ops));
+                if !r.panicked {
+                    o.t("trace");
+                    for c in &r.trace {
+                        put_call(&mut o, c);
+                    }
+                    put_buffers(&mut o, &r);
+                    // every scripted call was made
+                    orc.check(r.trace.len() == ops.len(), "buffers_builder/script-ran", "generic", || format!("{} of {} calls", r.trace.len(), ops.len()));
+                    // the builder-level clauses of the property, on every begin..abort / begin..end window
+                    if r.has_buffers {
+                        bb_oracle(&mut orc, &spec, &r);
+                    }
+                }
+                CaseOut { imp: o, orcl: orc.verdict }
             })
         });
     }
